@@ -198,7 +198,7 @@ def apply_event(bib, lib, name, factory, eid):
         for i in set(ids_in) & set(ids_out):
             shared[ids_in[i]] = shared.get(ids_in[i], 0) + 1
     ev = {"id": eid, "mw": name.split("(")[0], "inplace": False, "types": ty, "raised": raised, "changed": before != after,
-          "shared": sum(shared.values()), "same_text_twice": True, "fmt_unchanged": True}
+          "shared": sum(shared.values()), "same_text_twice": True, "fmt_unchanged": True, "bad_template": False}
     return ev, out, {"name": name, "exc": exc, "shared": shared}
 
 
@@ -259,10 +259,12 @@ def run(chk: core.Check):
         run_stack(label, mk, [rnd.choice(table) for _ in range(3)])
     # write_string: the library and the format are left as they were; writing twice gives the same text
     for label, mk in libs:
-        for vc in (0, "auto", 12):
+        for vc, template in ((0, None), ("auto", None), (12, None), ("auto", "% {oops} {n}"), (3, "% {0}")):
             lib = mk()
             fmt = bib.BibtexFormat()
             fmt.value_column = vc
+            if template:
+                fmt.parsing_failed_comment = template
             fstate = (fmt.indent, fmt.value_column, fmt.block_separator, fmt.trailing_comma, fmt.parsing_failed_comment)
             before, ids_in, ty = proj(lib, bib), mutable_ids(lib, bib), types_of(lib, bib)
             raised, exc, same = False, "", True
@@ -274,9 +276,9 @@ def run(chk: core.Check):
                 raised, exc = True, f"{type(ex).__name__}: {str(ex)[:120]}"
             eid = len(events)
             events.append({"id": eid, "mw": "write_string", "inplace": False, "types": ty, "raised": raised,
-                           "changed": proj(lib, bib) != before or set(mutable_ids(lib, bib)) != set(ids_in), "shared": 0, "same_text_twice": same,
+                           "changed": proj(lib, bib) != before or set(mutable_ids(lib, bib)) != set(ids_in), "shared": 0, "same_text_twice": same, "bad_template": template is not None,
                            "fmt_unchanged": fstate == (fmt.indent, fmt.value_column, fmt.block_separator, fmt.trailing_comma, fmt.parsing_failed_comment)})
-            info[eid] = {"library": label, "stack": [f"write_string(value_column={vc})"], "name": "write_string", "exc": exc, "shared": {}}
+            info[eid] = {"library": label, "stack": [f"write_string(value_column={vc}, parsing_failed_comment={template!r})"], "name": "write_string", "exc": exc, "shared": {}}
     verdict = core.validate_traces("Trace_Middleware", events, shards=8)
     for r in verdict.results:
         chk.add_tlc(r, "Trace_Middleware shard", count_states=False)
